@@ -8,6 +8,25 @@ let put_mat (m : float mat) =
   else begin put_w "M"; put_i (int_of_nat m.mrows); put_i (int_of_nat m.mcols); List.iter (List.iter put_f) m.mcomps end
 let rd_mat r = ok (mat_of_entries (table r))
 
+(* one call of a history.  `renew B` (the object is destroyed and a new one constructed from B in the same storage) leaves an
+   object with entries B, as `assignm B` does; `copyinvertible` / `copyinverse` put the query to a copy of the object,
+   which has the object's entries *)
+let step r =
+  let nat r = nat_of_int (integer r) in
+  match word r with
+  | "det" -> QDet | "invertible" | "copyinvertible" -> QInvertible | "inverse" | "copyinverse" -> QInverse
+  | "orthogonal" -> QOrthogonal
+  | "copydet" -> QCopyDet | "transdet" -> QTransDet
+  | "subdet" -> let i = nat r in let j = nat r in QSubDet (i, j)
+  | "add" -> UAdd (rd_mat r) | "sub" -> USub (rd_mat r)
+  | "set" -> let i = nat r in let j = nat r in let v = num r in USet (i, j, v)
+  | "swap" -> let i = nat r in let j = nat r in USwap (i, j)
+  | "assignm" | "renew" -> UCopyAssign (rd_mat r)
+  | "assign" -> let i = nat r in let j = nat r in let v = num r in UAssign (i, j, v)
+  | "resize" -> let i = nat r in let j = nat r in UResize (i, j)
+  | "delrow" -> UDelRow (nat r) | "delcol" -> UDelCol (nat r)
+  | o -> raise (Out ("MODELERR unknown_step_" ^ o))
+
 let handler r =
   try
   match word r with
@@ -25,26 +44,26 @@ let handler r =
       put_f (ok (determinant fops (ok (transpose fops a))))
   (* a call history on one object: every query answer is printed twice (the object's and a fresh object's) *)
   | "seq" -> let a = rd_mat r in let k = integer r in
-      let nat r = nat_of_int (integer r) in
-      let step () = match word r with
-        | "det" -> QDet | "invertible" -> QInvertible | "inverse" -> QInverse | "orthogonal" -> QOrthogonal
-        | "copydet" -> QCopyDet | "transdet" -> QTransDet
-        | "subdet" -> let i = nat r in let j = nat r in QSubDet (i, j)
-        | "add" -> UAdd (rd_mat r) | "sub" -> USub (rd_mat r)
-        | "set" -> let i = nat r in let j = nat r in let v = num r in USet (i, j, v)
-        | "swap" -> let i = nat r in let j = nat r in USwap (i, j)
-        | "assignm" -> UCopyAssign (rd_mat r)
-        | "assign" -> let i = nat r in let j = nat r in let v = num r in UAssign (i, j, v)
-        | "resize" -> let i = nat r in let j = nat r in UResize (i, j)
-        | "delrow" -> UDelRow (nat r) | "delcol" -> UDelCol (nat r)
-        | o -> raise (Out ("MODELERR unknown_step_" ^ o)) in
-      let rec steps n = if n <= 0 then [] else let s = step () in s :: steps (n - 1) in
+      let rec steps n = if n <= 0 then [] else let s = step r in s :: steps (n - 1) in
       let ops = steps k in
       let (_, outs) = ok (srun fops ops a) in
       List.iter (function
         | ODet d -> put_w "D"; put_f d; put_f d
         | OFlag b -> put_w "F"; put_b b; put_b b
         | OMat x -> put_w "X"; put_mat x; put_mat x
+        | ONone -> put_w "U") outs
+  (* a call history on several objects, calls interleaved: `hist m A_1 .. A_m k (obj step)*`; every answer printed once *)
+  | "hist" -> let m = integer r in
+      let rec mats n = if n <= 0 then [] else let a = rd_mat r in a :: mats (n - 1) in
+      let ms = mats m in
+      let k = integer r in
+      let rec steps n = if n <= 0 then [] else let o = nat_of_int (integer r) in let s = step r in (o, s) :: steps (n - 1) in
+      let ops = steps k in
+      let (_, outs) = ok (mrun fops ops ms) in
+      List.iter (function
+        | ODet d -> put_w "D"; put_f d
+        | OFlag b -> put_w "F"; put_b b
+        | OMat x -> put_w "X"; put_mat x
         | ONone -> put_w "U") outs
   | o -> put_w ("MODELERR unknown_op_" ^ o)
   with Out s -> Buffer.clear buf; first := true; put_w s
